@@ -16,6 +16,7 @@ import (
 	"sort"
 	"strings"
 	"sync"
+	"sync/atomic"
 	"unicode"
 	"unicode/utf8"
 )
@@ -380,6 +381,63 @@ func runC16(tier string) int {
 		if err != nil || len(bytes.TrimSpace(outb)) != 0 {
 			rep.Violate(&Violation{Diag: "format: gofmt -l lists default outputs as not formatted", Case: "gofmt cross-check", Detail: string(outb)})
 		}
+	}
+	// Sequences on one -out path: a run with formatter b over a file written with formatter a
+	// must leave exactly b's output (all ordered pairs of the four -fmt values).
+	{
+		seqPkg := fx.Pkgs[0]
+		var seqIfaces []string
+		for _, ic := range seqPkg.Ifaces {
+			if len(seqIfaces) < 6 && ic.Scope == "S-cfg" {
+				seqIfaces = append(seqIfaces, ic.Name)
+			}
+		}
+		fmts := []string{"", "gofmt", "noop", "goimports"}
+		type sq struct {
+			iface string
+			a, b  int
+		}
+		var sqs []sq
+		for _, in := range seqIfaces {
+			for a := range fmts {
+				for b := range fmts {
+					if a != b {
+						sqs = append(sqs, sq{in, a, b})
+					}
+				}
+			}
+		}
+		var seqRuns int64
+		parallelDo(len(sqs), nproc(), func(i int) {
+			s := sqs[i]
+			dir, err := os.MkdirTemp(work, "seq-")
+			must(err)
+			defer os.RemoveAll(dir)
+			out := filepath.Join(dir, "m_moq.go")
+			arg := func(f string, toFile bool) []string {
+				var a []string
+				if f != "" {
+					a = append(a, "-fmt", f)
+				}
+				if toFile {
+					a = append(a, "-out", out)
+				}
+				return append(a, ".", s.iface)
+			}
+			src := filepath.Join(fx.Root, seqPkg.Dir)
+			r1 := fx.cli(src, false, nil, arg(fmts[s.a], true)...)
+			r2 := fx.cli(src, false, nil, arg(fmts[s.b], true)...)
+			ref := fx.cli(src, false, nil, arg(fmts[s.b], false)...)
+			atomic.AddInt64(&seqRuns, 3)
+			got, _ := os.ReadFile(out)
+			if r1.Exit != 0 || r2.Exit != 0 || ref.Exit != 0 || !bytes.Equal(got, ref.Stdout) {
+				rep.Violate(&Violation{Diag: "format: a run over a file written with another formatter does not leave its own output", Features: []string{"c16:sequence"},
+					Case:   fmt.Sprintf("%s %s: moq -fmt %q -out F ; moq -fmt %q -out F", seqPkg.Dir, s.iface, fmts[s.a], fmts[s.b]),
+					Detail: fmt.Sprintf("exit codes %d %d %d; file has %d bytes, -fmt %q to standard output gives %d bytes", r1.Exit, r2.Exit, ref.Exit, len(got), fmts[s.b], len(ref.Stdout))})
+			}
+		})
+		rep.Add("evaluations", int(seqRuns))
+		rep.Set("formatter_sequence_pairs", len(sqs))
 	}
 	// the -fmt flag (and the others) must reach the generator unchanged through the CLI
 	var parity []*Case
